@@ -106,7 +106,10 @@ func init() {
 		Floors: map[string]int{"C09 locked view changes judged": 2000, "C09 new views judged": 1000, "C09 new views re-proposing a lock": 200},
 		Judged: []string{"C09 locked view changes judged", "C09 new views judged", "C09 new views re-proposing a lock"},
 		Extra:  farViews("C09", 9)})
-	reg(&sim.SimCheck{Prop: "C10", Workload: "c10", Profile: withOpts(advProfile(merge(map[string]int{"barePP": 5}, map[string]int{"equivocate": 20, "support": 25, "mutate": 20}), 500, 2), func(p *sim.Profile) { p.CommErrors, p.CommitFailures = true, true }),
+	reg(&sim.SimCheck{Prop: "C10", Workload: "c10", Profile: withOpts(advProfile(merge(map[string]int{"barePP": 5}, map[string]int{"equivocate": 20, "support": 25, "mutate": 20}), 500, 2), func(p *sim.Profile) {
+		// (in a third of the cases the consumers' validators do not object to a proposal without a block)
+		p.CommErrors, p.CommitFailures, p.LenientValidators = true, true, true
+	}),
 		QuickCases: 5000, ThoroughCases: 100000,
 		NonTrivial: func(r *sim.Result) bool { return r.Forky && r.Stats["C10 commits judged"] > 0 },
 		Rule:       "adversarial cases with conflicting proposals, duplicated and re-ordered deliveries; every message a correct node sends is judged (single-valued signatures per (h,v), phase order, view order); non-trivial = conflicting proposals were on the wire and a COMMIT of a correct node was judged",
@@ -196,7 +199,7 @@ func init() {
 			return append(append(append(fs, fs2...), fs3...), fs4...), ev, append(append(append(inc, inc2...), inc3...), inc4...)
 		}})
 	reg(&sim.SimCheck{Prop: "C13", Workload: "c13", Profile: func(th bool) *sim.Profile {
-		p := advProfile(merge(noBare, map[string]int{"support": 20, "mutate": 15}), 500, 3)(th)
+		p := advProfile(merge(noBare, map[string]int{"support": 20, "mutate": 15, "badBlock": 14}), 500, 3)(th)
 		p.CommitFailures, p.SplitHandoff, p.ReverseToLaggers = true, true, true
 		return p
 	},
